@@ -52,7 +52,7 @@ def step_lines(c, t):
     if c.get("ef"):
         for i, f in enumerate(c["ef"][t]):
             L.append("eforce %d 0 0 %s" % (i + 1, hx(f)))
-    L.append("step")
+    L += ["step", "logdump"]
     return L
 
 
@@ -65,49 +65,51 @@ def begin_lines(c, label):
     return L
 
 
-def scenario(c, d, runs):
-    """runs: list of ("U",) | ("C",) | ("R", K, fmt).  Files go to directory d with prefix c<id>_."""
+def plan(c):
+    return [("U",)] + [("AB", K, fmt) for K in c["Ks"] for fmt in c["fmts"]]
+
+
+def scenario(c, d, runs=None):
+    """Scenario text of a case.  Runs:
+       U        uninterrupted, never saves before the end;
+       A_K_fmt  same, but writes the state after step K (file a) and goes on;
+       B_K_fmt  fresh instance, same configuration, loads a, writes the state again at once (file b),
+                executes step K again (as an engine restarted from step K does) and goes on.
+       Every run ends by writing its final state as text.  Files go to directory d with prefix c<id>_."""
     T = len(c["pos"])
     pre = os.path.join(d, "c%s_" % c["id"])
     L = ["natoms %d" % c["natoms"]] + list(c.get("setup", [])) + ["show err 1"]
-    for run in runs:
+    for run in (runs or plan(c)):
         if run[0] == "U":
             L += begin_lines(c, "U")
             for t in range(T):
                 L += step_lines(c, t)
-            L += ["save text %sU.colvars.state" % pre, "logdump"]
-        elif run[0] == "C":
-            # same as U, but the state is written (and discarded) after every step: saving must not change the run
-            L += begin_lines(c, "C")
-            for t in range(T):
-                L += step_lines(c, t)
-                if t < T - 1:
-                    L += ["save %s %sCtmp%d.colvars.state" % (run[1], pre, t)]
-            L += ["save text %sC.colvars.state" % pre, "logdump"]
+            L += ["save text %sU.colvars.state" % pre]
         else:
             _, K, fmt = run
-            lab = "R_%d_%s" % (K, fmt)
-            L += begin_lines(c, lab)
-            for t in range(K + 1):
+            lab = "%d_%s" % (K, fmt)
+            fa = "%sa_%s" % (pre, lab)
+            fb = "%sb_%s" % (pre, lab)
+            L += begin_lines(c, "A_" + lab)
+            for t in range(T):
                 L += step_lines(c, t)
-            f1 = "%s%s_a" % (pre, lab)
-            f2 = "%s%s_b" % (pre, lab)
-            L += ["save %s %s.colvars.state" % (fmt, f1), "logdump"]
-            L += ["echo RESUME %s" % lab, "fresh", "logmark", "config EOF"] + list(c["config"]) + ["EOF"]
-            L += ["load %s" % f1, "save %s %s.colvars.state" % (fmt, f2)]
+                if t == K:
+                    L += ["save %s %s.colvars.state" % (fmt, fa)]
+            L += ["save text %sA_%s.colvars.state" % (pre, lab)]
+            L += begin_lines(c, "B_" + lab)
+            L += ["load %s" % fa, "save %s %s.colvars.state" % (fmt, fb)]
             for t in range(K, T):
                 L += step_lines(c, t)
-            L += ["save text %s%s.colvars.state" % (pre, lab), "logdump"]
+            L += ["save text %sB_%s.colvars.state" % (pre, lab)]
     L.append("echo END")
     return L
 
 
 # --------------------------------------------------------------------------------------------- output parsing
 def parse_runs(lines):
-    """-> {label: {"pre": [blocks], "post": [blocks], "events": [...]}}; a block is a dict per STEP"""
+    """-> {label: {"steps": [blocks], "events": [...]}}; a block is a dict per STEP"""
     runs = {}
     cur = None
-    part = None
     blk = None
     for l in lines:
         w = l.split()
@@ -115,11 +117,7 @@ def parse_runs(lines):
             continue
         if w[0] == "echo":
             if w[1] == "RUN":
-                cur = runs.setdefault(w[2], {"pre": [], "post": [], "events": [], "log_pre": [], "log_post": []})
-                part = "pre"
-                blk = None
-            elif w[1] == "RESUME":
-                part = "post"
+                cur = runs.setdefault(w[2], {"steps": [], "events": []})
                 blk = None
             elif w[1] == "END":
                 cur = None
@@ -127,8 +125,9 @@ def parse_runs(lines):
         if cur is None:
             continue
         if w[0] == "STEP":
-            blk = {"it": int(w[1]), "err": w[2] if len(w) > 2 else "", "cv": {}, "bias": {}, "atomf": {}, "energy": None}
-            cur[part].append(blk)
+            blk = {"it": int(w[1]), "err": w[2] if len(w) > 2 else "", "cv": {}, "bias": {}, "atomf": {}, "energy": None,
+                   "log": []}
+            cur["steps"].append(blk)
         elif w[0] == "ENERGY" and blk is not None:
             blk["energy"] = float.fromhex(w[1])
         elif w[0] == "CV" and blk is not None:
@@ -137,10 +136,12 @@ def parse_runs(lines):
             blk["bias"][w[1]] = float.fromhex(w[2])
         elif w[0] == "ATOMF" and blk is not None:
             blk["atomf"][w[1]] = [float.fromhex(t) for t in w[2:]]
-        elif w[0] == "LOG":
-            cur["log_" + part].append(l[4:])
-        elif w[0] in ("CONFIG", "LOAD", "SAVE", "FRESH"):
-            cur["events"].append((part, l))
+        elif w[0] == "LOG" and blk is not None:
+            m = re.search(r"Lambda=\s*(\S+)\s+dA/dLambda=\s*(\S+)", l)
+            if m:
+                blk["log"].append((float(m.group(1)), float(m.group(2))))
+        elif w[0] in ("CONFIG", "LOAD", "SAVE"):
+            cur["events"].append(l)
     return runs
 
 
@@ -208,6 +209,9 @@ def diff_blocks(a, b, tol=TOL, skip_tf=True):
                 va, vb = [va], [vb]
             if len(va) != len(vb) or not all(close(x, y, tol) for x, y in zip(va, vb)):
                 return (key + ":" + n, va, vb)
+    la, lb = a.get("log", []), b.get("log", [])
+    if len(la) != len(lb) or not all(close(x[0], y[0], 1e-5) and close(x[1], y[1], 2e-5) for x, y in zip(la, lb)):
+        return ("log:dA/dLambda", la, lb)
     return None
 
 
